@@ -2219,7 +2219,7 @@ func applyParsedTagRules(schema core.ZodSchema, fieldInfo tagparser.FieldInfo) c
 		case "time":
 			// Special handling for time.Time fields
 			schema = Time()
-		case "positive", "negative", "finite":
+		case "positive", "negative", "nonnegative", "nonpositive", "finite":
 			schema = applyNumericTagRule(schema, rule.Name, "")
 		case "nonempty":
 			if stringSchema, ok := schema.(*ZodString[string]); ok {
@@ -2349,6 +2349,10 @@ func (z *ZodIntegerTyped[T, R]) applyNumericTagRule(rule, param string) core.Zod
 		return z.Positive()
 	case "negative":
 		return z.Negative()
+	case "nonnegative":
+		return z.NonNegative()
+	case "nonpositive":
+		return z.NonPositive()
 	case "finite":
 		return z // every integer is finite
 	}
@@ -2377,6 +2381,10 @@ func (z *ZodFloatTyped[T, R]) applyNumericTagRule(rule, param string) core.ZodSc
 		return z.Positive()
 	case "negative":
 		return z.Negative()
+	case "nonnegative":
+		return z.NonNegative()
+	case "nonpositive":
+		return z.NonPositive()
 	case "finite":
 		return z.Finite()
 	}
